@@ -1930,6 +1930,25 @@ def _sorted(ip, args, kwargs, node, fr):
                             patterns=[z3.Select(r.arr, i)]))
         r.ghost['enum_of'] = dom
         return r
+    if isinstance(v, VList):
+        # a permutation of the list (witnessed both ways); the order itself is modelled for integers only
+        if v.ek is None:
+            return VList(None, z3.IntVal(0), None)
+        r = KList(v.ek).fresh(ip, 'sorted')
+        ip.assume(r.n == v.n)
+        pf = z3.Function(ip.fresh_name('perm'), z3.IntSort(), z3.IntSort())
+        qf = z3.Function(ip.fresh_name('perminv'), z3.IntSort(), z3.IntSort())
+        i, j = z3.Int(ip.fresh_name('i')), z3.Int(ip.fresh_name('j'))
+        ip.assume(z3.ForAll([i], z3.Implies(z3.And(0 <= i, i < r.n),
+                                            z3.And(0 <= pf(i), pf(i) < v.n, z3.Select(r.arr, i) == z3.Select(v.arr, pf(i)),
+                                                   qf(pf(i)) == i)), patterns=[z3.Select(r.arr, i)]))
+        ip.assume(z3.ForAll([j], z3.Implies(z3.And(0 <= j, j < v.n),
+                                            z3.And(0 <= qf(j), qf(j) < r.n, z3.Select(v.arr, j) == z3.Select(r.arr, qf(j)),
+                                                   pf(qf(j)) == j)), patterns=[z3.Select(v.arr, j)]))
+        if v.ek == KInt:
+            ip.assume(z3.ForAll([i, j], z3.Implies(z3.And(0 <= i, i < j, j < r.n),
+                                                   z3.Select(r.arr, i) <= z3.Select(r.arr, j))))
+        return r
     raise EngineError(f'sorted of {v!r}')
 
 
@@ -3186,6 +3205,16 @@ def spec_call(ip, e, fr):
     if name == 'assume':
         ip.assumed.add(f'ghost assume in {ip.cur_fn}: {ast.unparse(e.args[0])}')
         ip.assume(bt(e.args[0]))
+        return VConst(None)
+    if name == 'havoc':
+        # ghost statement havoc(obj.field): the field takes an arbitrary value of its kind (effect of a callee that reaches
+        # the object through a reference the contract cannot name)
+        a = e.args[0]
+        if not isinstance(a, ast.Attribute):
+            raise EngineError('havoc() expects obj.field')
+        obj = ev(a.value)
+        ip.havoc_field(obj, a.attr)
+        ip.touch(('field', obj.ident, a.attr))
         return VConst(None)
     if name == 'fresh':
         k = ev(e.args[0]).k
